@@ -328,5 +328,155 @@ theorem lexString_item (q : Char) (hq : isQuote q) (fmt : Bool) (f : Nat) (e : E
     simp only [spell, List.cons_append, List.nil_append]
     exact lexString_brace q hq f c tail loc work segs hc
 
+/-- The string loop over a whole run of elements. -/
+theorem lexString_items (q : Char) (hq : isQuote q) (fmt : Bool) (items : List (Esc × Char)) :
+    ∀ (fuel : Nat) (tail : List Char) (loc : Loc) (work : List Char),
+    items.length ≤ fuel → (∀ p ∈ items, Legal fmt q p.1 p.2) →
+    lexString q false fmt fuel ⟨encode items ++ tail, loc⟩ work [] =
+      lexString q false fmt (fuel - items.length) ⟨tail, advAll loc (encode items)⟩
+        ((items.map (·.2)).reverse ++ work) [] := by
+  induction items with
+  | nil => intro fuel tail loc work _ _; simp
+  | cons p r ih =>
+    intro fuel tail loc work hlen hl
+    cases fuel with
+    | zero => simp at hlen
+    | succ f =>
+      rw [encode_cons, List.append_assoc, lexString_item q hq fmt f p.1 p.2 _ loc work [] (hl p (by simp))]
+      rw [ih f tail _ _ (by simpa using hlen) (fun x hx => hl x (by simp [hx]))]
+      simp [advAll_append]
+
+/-- The values of the elements. -/
+def valueOf (items : List (Esc × Char)) : List Char := items.map (·.2)
+
+/-- Quoted string literal: any characters, any legal spelling per character, either quote — the token
+    is exactly the string spelled, and nothing beyond the closing quote is consumed. -/
+theorem string_roundtrip (q : Char) (hq : isQuote q) (items : List (Esc × Char))
+    (hl : ∀ p ∈ items, Legal false q p.1 p.2) (rest : List Char) (loc : Loc) :
+    lexToken ⟨q :: encode items ++ q :: rest, loc⟩ =
+      .ok (some (.strLit (valueOf items), ⟨loc, advAll loc (q :: encode items ++ [q])⟩),
+        ⟨rest, advAll loc (q :: encode items ++ [q])⟩) := by
+  rw [List.cons_append, lexToken_quote q hq _ loc]
+  have hlen : items.length ≤ (encode items ++ q :: rest).length + 1 := by
+    have := length_le_encode items; simp; omega
+  rw [lexString_items q hq false items _ (q :: rest) _ [] hlen hl]
+  obtain ⟨k, hk⟩ : ∃ k, (encode items ++ q :: rest).length + 1 - items.length = k + 1 := by
+    have := length_le_encode items
+    exact ⟨(encode items ++ q :: rest).length - items.length, by simp; omega⟩
+  rw [hk, lexString_close]
+  simp [finish, valueOf, advAll_append]
+
+/-- Format string literal without placeholders (`{{` / `}}` for braces): a plain string token. -/
+theorem fstring_roundtrip (q : Char) (hq : isQuote q) (items : List (Esc × Char))
+    (hl : ∀ p ∈ items, Legal true q p.1 p.2) (rest : List Char) (loc : Loc) :
+    lexToken ⟨'f' :: q :: encode items ++ q :: rest, loc⟩ =
+      .ok (some (.strLit (valueOf items), ⟨loc, advAll loc ('f' :: q :: encode items ++ [q])⟩),
+        ⟨rest, advAll loc ('f' :: q :: encode items ++ [q])⟩) := by
+  rw [List.cons_append, List.cons_append, lexToken_fmt q hq _ loc]
+  have hlen : items.length ≤ (encode items ++ q :: rest).length + 1 := by
+    have := length_le_encode items; simp; omega
+  rw [lexString_items q hq true items _ (q :: rest) _ [] hlen hl]
+  obtain ⟨k, hk⟩ : ∃ k, (encode items ++ q :: rest).length + 1 - items.length = k + 1 := by
+    have := length_le_encode items
+    exact ⟨(encode items ++ q :: rest).length - items.length, by simp; omega⟩
+  rw [hk, lexString_close]
+  simp [finish, valueOf, advAll_append]
+
+theorem lexString_rawrun (q : Char) (s : List Char) : ∀ (fuel : Nat) (tail : List Char) (loc : Loc) (work : List Char),
+    s.length ≤ fuel → q ∉ s →
+    lexString q true false fuel ⟨s ++ tail, loc⟩ work [] =
+      lexString q true false (fuel - s.length) ⟨tail, advAll loc s⟩ (s.reverse ++ work) [] := by
+  induction s with
+  | nil => intro fuel tail loc work _ _; simp
+  | cons c r ih =>
+    intro fuel tail loc work hlen hq
+    cases fuel with
+    | zero => simp at hlen
+    | succ f =>
+      have hc : c ≠ q := fun h => hq (by simp [h])
+      rw [List.cons_append, lexString_rawchar q f c _ loc work [] hc,
+        ih f tail _ _ (by simpa using hlen) (fun h => hq (by simp [h]))]
+      simp
+
+/-- Raw string literal: every character up to the closing quote is taken as it is (backslash included). -/
+theorem raw_roundtrip (q : Char) (hq : isQuote q) (s : List Char) (hs : q ∉ s) (rest : List Char) (loc : Loc) :
+    lexToken ⟨'r' :: q :: s ++ q :: rest, loc⟩ =
+      .ok (some (.strLit s, ⟨loc, advAll loc ('r' :: q :: s ++ [q])⟩), ⟨rest, advAll loc ('r' :: q :: s ++ [q])⟩) := by
+  rw [List.cons_append, List.cons_append, lexToken_raw q hq _ loc,
+    lexString_rawrun q s _ (q :: rest) _ [] (by simp; omega) hs]
+  obtain ⟨k, hk⟩ : ∃ k, (s ++ q :: rest).length + 1 - s.length = k + 1 :=
+    ⟨(s ++ q :: rest).length - s.length, by simp; omega⟩
+  rw [hk, lexString_close]
+  simp [finish, advAll_append]
+
+/-- The same statement with a choice function: position `i` of `s` is written with spelling `choice i`. -/
+def withChoice (choice : Nat → Esc) : Nat → List Char → List (Esc × Char)
+  | _, [] => []
+  | i, c :: r => (choice i, c) :: withChoice choice (i + 1) r
+
+theorem valueOf_withChoice (choice : Nat → Esc) (s : List Char) : ∀ i, valueOf (withChoice choice i s) = s := by
+  induction s with
+  | nil => intro i; rfl
+  | cons c r ih => intro i; simp [withChoice, valueOf] at *; exact ih (i + 1)
+
+theorem string_roundtrip_choice (q : Char) (hq : isQuote q) (s : List Char) (choice : Nat → Esc)
+    (hl : ∀ p ∈ withChoice choice 0 s, Legal false q p.1 p.2) (rest : List Char) (loc : Loc) :
+    lexToken ⟨q :: encode (withChoice choice 0 s) ++ q :: rest, loc⟩ =
+      .ok (some (.strLit s, ⟨loc, advAll loc (q :: encode (withChoice choice 0 s) ++ [q])⟩),
+        ⟨rest, advAll loc (q :: encode (withChoice choice 0 s) ++ [q])⟩) := by
+  rw [string_roundtrip q hq _ hl rest loc, valueOf_withChoice]
+
+/-! ### rejected string literals -/
+
+/-- Well-formed elements followed by something the loop fails on: the whole literal is an error. -/
+theorem string_prefix_error (q : Char) (hq : isQuote q) (items : List (Esc × Char))
+    (hl : ∀ p ∈ items, Legal false q p.1 p.2) (bad : List Char) (loc : Loc)
+    (hbad : ∀ f l work, ∃ e, lexString q false false (f + 1) ⟨bad, l⟩ work [] = .error e) :
+    ∃ e, lexToken ⟨q :: encode items ++ bad, loc⟩ = .error e := by
+  rw [List.cons_append, lexToken_quote q hq _ loc]
+  have hlen : items.length ≤ (encode items ++ bad).length + 1 := by
+    have := length_le_encode items; simp; omega
+  rw [lexString_items q hq false items _ bad _ [] hlen hl]
+  obtain ⟨k, hk⟩ : ∃ k, (encode items ++ bad).length + 1 - items.length = k + 1 := by
+    have := length_le_encode items
+    exact ⟨(encode items ++ bad).length - items.length, by simp; omega⟩
+  obtain ⟨e, he⟩ := hbad k (advAll (loc.adv q) (encode items)) ((items.map (·.2)).reverse ++ [])
+  exact ⟨e, by rw [hk, he]; rfl⟩
+
+/-- `\x`, `\u`, `\U` with all their digits but spelling no scalar value (a surrogate, or above 0x10FFFF). -/
+theorem bad_codepoint_rejected (q : Char) (hq : isQuote q) (items : List (Esc × Char))
+    (hl : ∀ p ∈ items, Legal false q p.1 p.2) (intro : Char) (n : Nat) (hs tail : List Char) (loc : Loc)
+    (h : hexEscape intro n) (hn : hs.length = n) (hh : ∀ c ∈ hs, (hexDigitVal c).isSome = true)
+    (hv : ¬ (spelled 16 hs).isValidChar) :
+    ∃ e, lexToken ⟨q :: encode items ++ '\\' :: intro :: (hs ++ tail), loc⟩ = .error e :=
+  string_prefix_error q hq items hl _ loc fun f l work =>
+    lexString_hex_invalid q hq false f intro n hs tail l work [] h hn hh hv
+
+/-- A hexadecimal escape cut short: by the end of the text or by a character that is no hex digit
+    (the closing quote, for one). -/
+theorem truncated_escape_rejected (q : Char) (hq : isQuote q) (items : List (Esc × Char))
+    (hl : ∀ p ∈ items, Legal false q p.1 p.2) (intro : Char) (n : Nat) (hs tail : List Char) (loc : Loc)
+    (h : hexEscape intro n) (hn : hs.length < n) (hh : ∀ c ∈ hs, (hexDigitVal c).isSome = true)
+    (ht : ∀ c, tail.head? = some c → hexDigitVal c = none) :
+    ∃ e, lexToken ⟨q :: encode items ++ '\\' :: intro :: (hs ++ tail), loc⟩ = .error e :=
+  string_prefix_error q hq items hl _ loc fun f l work =>
+    lexString_hex_short q hq false f intro n hs tail l work [] h hn hh ht
+
+/-- An octal escape with fewer than three characters left, or with a digit outside `0..7` in any position. -/
+theorem bad_octal_rejected (q : Char) (hq : isQuote q) (items : List (Esc × Char))
+    (hl : ∀ p ∈ items, Legal false q p.1 p.2) (d0 : Char) (body : List Char) (loc : Loc) (hd : isDigit d0 = true)
+    (h : body.length < 2 ∨ ∃ d1 d2 t, body = d1 :: d2 :: t ∧ (isOct d0 && isOct d1 && isOct d2) = false) :
+    ∃ e, lexToken ⟨q :: encode items ++ '\\' :: d0 :: body, loc⟩ = .error e :=
+  string_prefix_error q hq items hl _ loc fun f l work =>
+    lexString_oct_bad q hq false f d0 body l work [] hd h
+
+/-- No closing quote (also: a backslash as the last character). -/
+theorem unterminated_rejected (q : Char) (hq : isQuote q) (items : List (Esc × Char))
+    (hl : ∀ p ∈ items, Legal false q p.1 p.2) (loc : Loc) :
+    (∃ e, lexToken ⟨q :: encode items ++ [], loc⟩ = .error e) ∧
+    (∃ e, lexToken ⟨q :: encode items ++ ['\\'], loc⟩ = .error e) :=
+  ⟨string_prefix_error q hq items hl [] loc fun f l work => ⟨_, lexString_eof q false false (f + 1) l work []⟩,
+   string_prefix_error q hq items hl _ loc fun f l work => lexString_backslash_eof q hq false f l work []⟩
+
 end C13
 end Rscel
